@@ -217,6 +217,32 @@ fn run(ctx: &mut Ctx) {
             }
         }
     });
+    // two defects at once: every reserved bit on top of every way of breaking the counter ordering
+    ctx.cases("two-defects", 6, |ctx, k, _rng| {
+        let (ds, dd, di) = [(1i64, 4i64, 3i64), (4, 2, 3), (1, 2, 0), (-1, 2, 3), (5, 4, 3), (2, 1, 3)][k as usize];
+        for out in [10u32, 0x0100_0000, 0x0FFF_FFF0] {
+            let mut t = Trg::simple(9, out);
+            t.scaledown = (out as i64 + ds) as u32;
+            t.drift = (out as i64 + dd) as u32;
+            t.input = (out as i64 + di) as u32;
+            let base = t.encode();
+            check(ctx, &base, "counters out of order");
+            for &(w, bit) in &reserved {
+                let mut b = base.clone();
+                let v = u32::from_le_bytes(b[4 * w..4 * w + 4].try_into().unwrap()) | (1 << bit);
+                b[4 * w..4 * w + 4].copy_from_slice(&v.to_le_bytes());
+                check_light(ctx, &b, "reserved bit set and counters out of order");
+            }
+            // and with bad marks / bad low-28 agreement on top
+            for (hh, fh) in [(0x8u32, 0x8u32), (0xE, 0xE), (0x0, 0xE), (0x8, 0x0)] {
+                let mut x = t.clone();
+                x.header_hi = hh;
+                x.footer_hi = fh;
+                check_light(ctx, &x.encode(), "bad marks and counters out of order");
+            }
+            ctx.count("packets with two defects at once");
+        }
+    });
     // header / footer / output agreement on every single bit of the 28, with ordered counters
     ctx.cases("trigout-bits", 28, |ctx, k, _rng| {
         for out in [0x00AB_CDEFu32, 0x0FFF_FFFF, 0, 0x0800_0001] {
